@@ -3,9 +3,11 @@ package main
 import (
 	"context"
 	"crypto/tls"
+	"errors"
 	"fmt"
 	"log/slog"
 	"net"
+	"sync"
 	"time"
 
 	"github.com/scionproto/scion/pkg/addr"
@@ -17,92 +19,440 @@ import (
 	"verifharness/lib"
 )
 
-// The QUIC/SCION path of exchangeKeys (D-C20b, repaired in /repo: the Data returned by dialQUIC used to be
-// discarded, so the defaults "key-exchange host, port 10123" were never applied and the fields of the
-// previous exchange survived).  Runs by default; C20_QUIC=0 switches it off.  The scripted peer is the project's own
-// scion.ListenQUIC; both ends are in one AS (empty path).
-func runQUIC(r *lib.Rng, hist [][]rec) {
-	ctx := context.Background()
+// The QUIC/SCION path of exchangeKeys (Fetcher.QUIC.Enabled): histories of FetchData / StoreCookie
+// calls on one real Fetcher against a scripted QUIC peer (the project's own scion.ListenQUIC; both
+// ends in one AS, empty path), written as cases of kind ke.quic in the format of ke.hist and compared
+// with the model of the QUIC branch.  D-C20b (repaired in /repo by 38f59d0: the Data returned by
+// dialQUIC used to be discarded, so the defaults "key-exchange host, port 10123" were never applied
+// and the fields of the previous exchange survived) is what these histories are built around.
+// C20_QUIC=0 switches the kind off.
+
+var quicIA addr.IA
+
+func init() {
 	ia, err := addr.ParseIA("1-ff00:0:110")
 	if err != nil {
 		panic(err)
 	}
-	srvCfg := &tls.Config{Certificates: []tls.Certificate{cert}, NextProtos: []string{"ntske/1"}, MinVersion: tls.VersionTLS13}
-	ln, err := scion.ListenQUIC(ctx, udp.UDPAddr{IA: ia, Host: &net.UDPAddr{IP: addrA, Port: 0}}, srvCfg, nil)
+	quicIA = ia
+}
+
+// quicPeer is the scripted key-exchange peer behind a QUIC listener.
+type quicPeer struct {
+	ln      *scion.QUICListener
+	port    int
+	mu      sync.Mutex
+	cur     *script
+	hellos  int // ClientHellos that reached the peer's TLS stack since begin()
+	obs     []connObs
+	handled chan struct{}
+}
+
+func newQUICPeer(ip net.IP) *quicPeer {
+	p := &quicPeer{handled: make(chan struct{}, 64)}
+	cfg := &tls.Config{
+		Certificates: []tls.Certificate{cert},
+		NextProtos:   []string{"ntske/1"},
+		MinVersion:   tls.VersionTLS13,
+		// one configuration per connection attempt: the ALPN list of the current script
+		GetConfigForClient: func(*tls.ClientHelloInfo) (*tls.Config, error) {
+			p.mu.Lock()
+			p.hellos++
+			sc := p.cur
+			p.mu.Unlock()
+			var alpn []string
+			if sc != nil {
+				alpn = append(alpn, sc.alpn...)
+			}
+			return &tls.Config{Certificates: []tls.Certificate{cert}, NextProtos: alpn, MinVersion: tls.VersionTLS13}, nil
+		},
+	}
+	ln, err := scion.ListenQUIC(context.Background(), udp.UDPAddr{IA: quicIA, Host: &net.UDPAddr{IP: ip, Port: 0}}, cfg, nil)
 	if err != nil {
 		panic(err)
 	}
-	defer ln.Close()
-	port := ln.Addr().(udp.UDPAddr).Host.Port
-	scripts := make(chan []byte, len(hist))
-	go func() {
-		for {
-			conn, err := ln.Accept(ctx)
-			if err != nil {
-				return
-			}
-			out := <-scripts
-			go func() {
-				stream, err := conn.AcceptStream(ctx)
-				if err != nil {
-					return
-				}
-				buf := make([]byte, 64)
-				got := 0
-				for got < 16 {
-					n, err := stream.Read(buf)
-					got += n
-					if err != nil {
-						return
-					}
-				}
-				stream.Write(out)
-				stream.Close()
-				<-conn.Context().Done()
-			}()
-		}
-	}()
-	f := &ntske.Fetcher{Log: slog.New(slog.DiscardHandler)}
-	f.TLSConfig = tls.Config{InsecureSkipVerify: true, MinVersion: tls.VersionTLS13}
-	f.QUIC.Enabled = true
-	f.QUIC.LocalAddr = udp.UDPAddr{IA: ia, Host: &net.UDPAddr{IP: addrA}}
-	f.QUIC.RemoteAddr = udp.UDPAddr{IA: ia, Host: &net.UDPAddr{IP: addrA, Port: port}}
-	var args, outs []string
-	for _, recs := range hist {
-		sc := script{recs: recs}
-		scripts <- sc.full()
-		ch := make(chan fetchRes, 1)
-		go func() {
-			d, err := f.FetchData(ctx)
-			ch <- fetchRes{d, err}
-		}()
-		var res fetchRes
-		select {
-		case res = <-ch:
-		case <-time.After(60 * time.Second):
-			panic("FetchData over QUIC did not return")
-		}
-		cls := 0
-		if res.err != nil {
-			cls = 2
-			fmt.Println("NOTE quic exchange failed:", res.err)
-		}
-		args = append(args, fmtRecs(recs))
-		outs = append(outs, lib.L(lib.I(int64(cls)), lib.B([]byte(res.d.Server)), lib.I(int64(res.d.Port)), lib.I(int64(len(res.d.Cookie)))))
-	}
-	w.Case("ke.quic", "quic", lib.V(lib.B([]byte(addrA.String())), lib.L(args...)), lib.L(outs...))
+	p.ln = ln
+	p.port = ln.Addr().(udp.UDPAddr).Host.Port
+	go p.acceptLoop()
+	return p
 }
 
-func genQUIC(r *lib.Rng) {
-	one := func(extra ...rec) []rec {
-		rs := []rec{{1, true, u16(0)}, {4, true, u16(15)}}
-		rs = append(rs, extra...)
-		return append(rs, rec{5, false, r.Bytes(100)}, rec{0, true, nil})
+func (p *quicPeer) close() { p.ln.Close() }
+
+func (p *quicPeer) acceptLoop() {
+	for {
+		conn, err := p.ln.Accept(context.Background())
+		if err != nil {
+			return
+		}
+		p.mu.Lock()
+		sc := p.cur
+		p.mu.Unlock()
+		go p.handle(conn, sc)
 	}
-	// the peer names nothing: the request must go to the key-exchange host, port 10123
-	runQUIC(r, [][]rec{one()})
-	// a target is named, its only cookie is used, the next exchange names nothing
-	runQUIC(r, [][]rec{one(rec{6, false, []byte("10.1.1.1")}, rec{7, false, u16(4123)}), one()})
-	// named targets are honoured
-	runQUIC(r, [][]rec{one(rec{6, false, []byte("10.1.1.1")}, rec{7, false, u16(4123)})})
+}
+
+// qconn is what the peer uses of a quic.Connection (the type itself is not imported: the harness
+// module lists quic-go as an indirect dependency only)
+type qconn interface{ Context() context.Context }
+
+func waitDone(conn qconn, d time.Duration) {
+	select {
+	case <-conn.Context().Done():
+	case <-time.After(d):
+	}
+}
+
+func (p *quicPeer) handle(conn scionQUICConn, sc *script) {
+	st := conn.ConnectionState().TLS
+	o := connObs{hsOK: true, negotiated: st.NegotiatedProtocol}
+	o.c2s, _ = st.ExportKeyingMaterial(rfcLabel, rfcC2S, 32)
+	o.s2c, _ = st.ExportKeyingMaterial(rfcLabel, rfcS2C, 32)
+	p.mu.Lock()
+	p.obs = append(p.obs, o)
+	p.mu.Unlock()
+	select {
+	case p.handled <- struct{}{}:
+	default:
+	}
+	defer conn.CloseWithError(0, "")
+	if sc == nil {
+		return
+	}
+	out := sc.sent()
+	if len(out) == 0 && sc.ending == 1 {
+		// the connection is dropped before a byte of the message is sent
+		conn.CloseWithError(1, "drop")
+		return
+	}
+	ctx, cancel := context.WithTimeout(context.Background(), 30*time.Second)
+	defer cancel()
+	stream, err := conn.AcceptStream(ctx)
+	if err != nil {
+		return
+	}
+	// the client's request (next protocol, algorithm, end of message = 16 bytes) is read completely
+	stream.SetReadDeadline(time.Now().Add(30 * time.Second))
+	buf := make([]byte, 64)
+	for got := 0; got < 16; {
+		n, err := stream.Read(buf)
+		got += n
+		if err != nil {
+			return
+		}
+	}
+	for _, n := range sc.chunks {
+		if n <= 0 || len(out) == 0 {
+			break
+		}
+		if n > len(out) {
+			n = len(out)
+		}
+		if _, err := stream.Write(out[:n]); err != nil {
+			return
+		}
+		out = out[n:]
+	}
+	if len(out) > 0 {
+		if _, err := stream.Write(out); err != nil {
+			return
+		}
+	}
+	if sc.ending == 2 {
+		// the stream stays open: a client that has seen the end of the message does not wait
+		// for more; safety net as in the TLS peer
+		waitDone(conn, 3*time.Second)
+	}
+	// end of the stream after the bytes sent; resetting the stream or closing the connection
+	// here instead could destroy bytes the client has not read yet, so every other ending is
+	// this one.  The connection is the client's to close.
+	stream.Close()
+	waitDone(conn, 10*time.Second)
+}
+
+func (p *quicPeer) begin(sc *script) {
+	for {
+		select {
+		case <-p.handled:
+			continue
+		default:
+		}
+		break
+	}
+	p.mu.Lock()
+	p.cur = sc
+	p.hellos = 0
+	p.obs = nil
+	p.mu.Unlock()
+}
+
+// end returns the number of connection attempts that reached the peer and what it saw of the
+// first connection.  A client whose handshake completed has had its connection accepted before
+// it could read a byte of the answer; when the handshake can complete (or the client says it
+// did) the acceptance is waited for.
+func (p *quicPeer) end(expectAccept bool) (int, connObs) {
+	p.mu.Lock()
+	seen := p.hellos > 0 // a client that got any answer has had its ClientHello processed before
+	p.mu.Unlock()
+	if expectAccept && seen {
+		select {
+		case <-p.handled:
+		case <-time.After(30 * time.Second):
+			fmt.Println("NOTE quic peer: no connection was accepted although one was expected")
+		}
+	}
+	p.mu.Lock()
+	defer p.mu.Unlock()
+	var o connObs
+	if len(p.obs) > 0 {
+		o = p.obs[0]
+	}
+	return p.hellos, o
+}
+
+func classifyQUIC(err error, sessionUp bool) int {
+	c := classify(err, sessionUp)
+	if c != 98 {
+		return c
+	}
+	// quic-go's connection-level errors (application/transport close, idle and handshake
+	// timeout, stateless reset) all match net.ErrClosed
+	if errors.Is(err, net.ErrClosed) {
+		return 2 // read/write error on the established connection
+	}
+	return 98
+}
+
+func newQUICFetcher(r *lib.Rng) *ntske.Fetcher {
+	f := &ntske.Fetcher{}
+	f.Log = slog.New(slog.DiscardHandler)
+	cfg := tls.Config{MinVersion: tls.VersionTLS13}
+	switch r.Intn(3) {
+	case 0: // as timeservice.go configures it
+		cfg.NextProtos = []string{"ntske/1"}
+		cfg.InsecureSkipVerify = true
+	case 1: // verified certificate, ALPN left to the package
+		cfg.RootCAs = roots
+	default: // a list the package has to replace
+		cfg.RootCAs = roots
+		cfg.NextProtos = []string{"h2"}
+	}
+	cfg.ServerName = addrA.String()
+	f.TLSConfig = cfg
+	f.QUIC.Enabled = true
+	f.QUIC.LocalAddr = udp.UDPAddr{IA: quicIA, Host: &net.UDPAddr{IP: addrA}}
+	return f
+}
+
+func hasProto(l []string, p string) bool {
+	for _, x := range l {
+		if x == p {
+			return true
+		}
+	}
+	return false
+}
+
+// doFetchQUIC is doFetch for a Fetcher with QUIC.Enabled.
+func doFetchQUIC(p *quicPeer, f *ntske.Fetcher, o *op) (string, bool, ntske.Data) {
+	host := addrA
+	if o.sc.mode == 1 {
+		host = addrB // no QUIC listener there
+	}
+	o.host = host.String()
+	f.QUIC.RemoteAddr = udp.UDPAddr{IA: quicIA, Host: &net.UDPAddr{IP: host, Port: p.port}}
+	p.begin(&o.sc)
+	ch := make(chan fetchRes, 1)
+	go func() {
+		d, err := f.FetchData(context.Background())
+		ch <- fetchRes{d, err}
+	}()
+	var res fetchRes
+	select {
+	case res = <-ch:
+	case <-time.After(120 * time.Second):
+		panic("FetchData over QUIC did not return within 120 s")
+	}
+	conns, co := p.end(res.err == nil || (o.sc.mode == 0 && hasProto(o.sc.alpn, "ntske/1")))
+	cls := classifyQUIC(res.err, co.hsOK)
+	items := []string{lib.I(int64(conns)), lib.Bool(co.hsOK), lib.B([]byte(co.negotiated)), lib.B(co.c2s), lib.B(co.s2c), lib.I(int64(cls))}
+	items = append(items, fmtData(res.d)...)
+	if cls == 98 {
+		fmt.Println("NOTE unclassified error (quic):", res.err)
+	}
+	return lib.L(items...), res.err == nil, res.d
+}
+
+// ---- histories ----
+
+func newQUICHist(r *lib.Rng, p *quicPeer) *hist {
+	return &hist{f: newQUICFetcher(r), q: p, tags: map[string]bool{"quic": true}}
+}
+
+func named(r *lib.Rng, sc *script) {
+	sc.recs = insertAt(sc.recs, 0, rec{6, false, []byte(lib.Pick(r, "10.1.1.1", "10.20.30.40", "2001:db8::1"))})
+	sc.recs = insertAt(sc.recs, 0, rec{7, false, u16(lib.Pick(r, 4123, 123, 65535, 1+r.Intn(65535)))})
+}
+
+func unnamed(sc *script) {
+	var rs []rec
+	for _, x := range sc.recs {
+		if x.typ != 6 && x.typ != 7 {
+			rs = append(rs, x)
+		}
+	}
+	sc.recs = rs
+}
+
+func oneCookie(sc *script) {
+	var rs []rec
+	seen := false
+	for _, x := range sc.recs {
+		if x.typ == 5 {
+			if seen {
+				continue
+			}
+			seen = true
+		}
+		rs = append(rs, x)
+	}
+	sc.recs = rs
+}
+
+// the shapes around D-C20b: what an exchange leaves in f.data must not reach the next one
+func genQUICDefaults(r *lib.Rng, p *quicPeer) {
+	h := newQUICHist(r, p)
+	h.tags["defaults"] = true
+	switch r.Intn(4) {
+	case 0: // the first exchange of a fetcher names nothing
+		sc := genScript(r, h, true)
+		unnamed(&sc)
+		finishScript(r, &sc, false)
+		h.step(sc)
+	case 1: // target named, pool used up, then an exchange that names nothing
+		sc := genScript(r, h, true)
+		named(r, &sc)
+		if r.Intn(2) == 0 {
+			oneCookie(&sc)
+		}
+		finishScript(r, &sc, false)
+		h.step(sc)
+		for i := 0; i < 12 && h.pool > 0; i++ {
+			h.step(h.probe())
+		}
+		sc2 := genScript(r, h, true)
+		unnamed(&sc2)
+		finishScript(r, &sc2, false)
+		h.step(sc2)
+	case 2: // a good exchange, pool used up, then one without an algorithm record (and others that must fail)
+		sc := genScript(r, h, true)
+		oneCookie(&sc)
+		finishScript(r, &sc, false)
+		h.step(sc)
+		sc2 := genScript(r, h, true)
+		var rs []rec
+		for _, x := range sc2.recs {
+			if x.typ != 4 {
+				rs = append(rs, x)
+			}
+		}
+		sc2.recs = rs
+		h.tags["m-noaead"] = true
+		finishScript(r, &sc2, false)
+		h.step(sc2)
+		h.step(genScript(r, h, true))
+	default: // target named, a failure, then an exchange that names nothing
+		sc := genScript(r, h, true)
+		named(r, &sc)
+		oneCookie(&sc)
+		finishScript(r, &sc, false)
+		h.step(sc)
+		h.step(genScript(r, h, false))
+		sc2 := genScript(r, h, true)
+		unnamed(&sc2)
+		finishScript(r, &sc2, false)
+		h.step(sc2)
+	}
+	h.finish()
+}
+
+// dial failures take quic-go's handshake timeout (5 s) each: one history, run beside the others
+// on its own peer
+func genQUICDial(r *lib.Rng, p *quicPeer) *hist {
+	h := newQUICHist(r, p)
+	h.tags["dial"] = true
+	h.deferred = true
+	none := script{mode: 1, alpn: []string{"ntske/1"}}
+	h.step(none)
+	sc := genScript(r, h, true)
+	named(r, &sc)
+	oneCookie(&sc)
+	finishScript(r, &sc, false)
+	h.step(sc)
+	h.step(none)
+	sc2 := genScript(r, h, true)
+	unnamed(&sc2)
+	finishScript(r, &sc2, false)
+	h.step(sc2)
+	h.finish()
+	return h
+}
+
+func genQUICSweeps(r *lib.Rng, p *quicPeer) {
+	base := []rec{{1, true, u16(0)}, {4, true, u16(15)}, {6, false, []byte("10.0.0.7")}, {7, false, u16(4123)},
+		{5, false, r.Bytes(24)}, {5, false, r.Bytes(24)}, {0, true, nil}}
+	full := totalLen(base)
+	for k := 0; k <= full; k += 1 + r.Intn(3) {
+		h := newQUICHist(r, p)
+		sc := script{alpn: []string{"ntske/1"}, recs: base, cut: k}
+		finishScript(r, &sc, true)
+		h.tags["trunc"] = true
+		h.tags["sweep"] = true
+		h.step(sc)
+		h.finish()
+	}
+	for _, al := range append(alpnLists, []string{"ntske/1"}) {
+		h := newQUICHist(r, p)
+		sc := script{alpn: al, recs: base}
+		finishScript(r, &sc, false)
+		h.tags["sweep"] = true
+		h.tags["alpn"] = true
+		h.step(sc)
+		h.finish()
+	}
+}
+
+// genQUIC writes n random histories plus the fixed shapes.  The dial-failure history runs
+// beside everything else on a peer of its own; the function returned waits for it and writes it.
+func genQUIC(r *lib.Rng, n int) func() {
+	pd := newQUICPeer(addrA)
+	rd := r.Fork()
+	done := make(chan *hist, 1)
+	go func() { done <- genQUICDial(rd, pd) }()
+	p := newQUICPeer(addrA)
+	defer p.close()
+	genQUICSweeps(r, p)
+	for i := 0; i < n; i++ {
+		if i%3 == 0 {
+			genQUICDefaults(r, p)
+		} else {
+			genHistoryOn(r, newQUICHist(r, p))
+		}
+	}
+	return func() {
+		defer pd.close()
+		select {
+		case h := <-done:
+			h.deferred = false
+			h.write()
+		case <-time.After(300 * time.Second):
+			panic("the QUIC dial-failure history did not finish")
+		}
+	}
+}
+
+func replayQUIC(r *lib.Rng, ops []op, tags string) {
+	p := newQUICPeer(addrA)
+	defer p.close()
+	replayOn(newQUICHist(r, p), ops, tags)
 }
